@@ -53,6 +53,23 @@ TEXT = {
             "GEMINI.evaluate equals the documented pairwise term on exactly the linked rows of the batch",
             "Runtime monitoring: ~11k validations + ~1k decorated batches per quick run.",
             "Acceptance rule taken from the property text; 3-column pair arrays are not generated."),
+    "C08": ("contract on gemclus.tree.kauri.find_best_split (native module rebuilt from the working tree's _utils.cpp): "
+            "the full state of every call is replayed through a brute-force reference that relabels and recomputes the "
+            "objective for every admissible candidate; post-fit score decomposition and stopping-rule check; thorough "
+            "tier repeats the synthetic states on an ASan+UBSan build",
+            "Runtime monitoring of ~4.5k (quick) / 75k (thorough) find_best_split calls from real fits and synthetic "
+            "tree states; two open findings in the Cython source are classified by mechanism and reported as KNOWN-FINDING.",
+            "Cython unavailable: the .pyx cannot be translated, the check builds _utils.cpp and reports INCONCLUSIVE when "
+            "the .cpp no longer echoes the .pyx. Admissible families as documented in the code."),
+    "C09": ("post-fit contract on every Kauri.fit: limits, partition, thresholds, node counts re-derived from the arrays "
+            "with an independent router and objective; predict on fresh / on-threshold points; score vs reference",
+            "Runtime monitoring of 1.6k (quick) / 40k (thorough) fits over all combinations of small structural limits; "
+            "thorough adds fits on the ASan+UBSan build.",
+            "Independent router uses x <= threshold -> left, as the training partition does."),
+    "C19": ("stdout of print_kauri_tree parsed by an independent recursive-descent parser into threshold rules, applied "
+            "to training / fresh / on-threshold points and compared with predict; names mapped back; refusals",
+            "Runtime monitoring over the C09 fit workload (~2k printed trees per quick run, ~100k points).",
+            "Thresholds are printed with a round-tripping repr; generated names contain no ' <= ' / ' > '."),
 }
 
 TECH_DEFAULT = "runtime monitoring: contracts/invariants at hooked call sites over generated workloads"
